@@ -663,6 +663,29 @@ func opImport(h *Hist) {
 	} else if h.prop == "C06" {
 		h.curOwner = []string{"C06"}
 	}
+	if h.d.Draw("import-poisoned", 14) == 0 {
+		// a conversion that cannot succeed (a value of an unsupported type somewhere inside): whether and how it fails is not
+		// C13's business, but whatever the attempt leaves behind in the library must not show in any later conversion
+		poison := rejectedValue(h.d)
+		var tree any = []any{1, map[string]any{"deep": []any{"x", poison}}, "tail"}
+		switch h.d.Draw("poison-shape", 3) {
+		case 0:
+			tree = []any{poison}
+		case 1:
+			tree = []any{[]any{[]any{map[string]any{"k": poison}}}}
+		}
+		p, _ := h.call(func() {
+			if isObj {
+				at.NewObjectFrom(map[string]any{"a": 1, "t": tree})
+			} else {
+				at.NewListFrom(tree)
+			}
+		})
+		h.tracef("%s of a Go value holding an unsupported value: panicked=%v", name, p)
+		h.counters["probe:import-of-unsupported-value"]++
+		h.heapCheck()
+		return
+	}
 	var src any
 	var reuse *Native
 	// sometimes import a Go value that already is a heap citizen (an earlier export or source)
